@@ -7,7 +7,8 @@ property says, and emit them as Lean definitions (`Gen/TreeEdit.lean`).  `Props/
   re-initialised with the piece — the instance of `PruneSpec` for which the loop is proved equal to the successive
   single prunes (cutting `self` instead of the working copy makes every iteration start from the original);
 * `reroot_skeleton` (navis/graph/graph_utils.py): the two slices of `x.nodes.loc[path[a:b], 'parent_id'] = path[c:d]`,
-  the parent written for the new root, and whether the "already a root" test inside the loop re-reads `x.root` —
+  the parent written for the new root, whether the "already a root" test inside the loop re-reads `x.root`, and — networkx
+  branch — whether the walk new root -> old root tests its parent with `is None` / `is not None` (not by truthiness: id 0) —
   the instance of `RerootSpec` for which the loop is proved equal to the model's `rerootMany`;
 * `cut_skeleton`: the single-tree guard, the presence / root checks for ids, the order-preserving de-duplication,
   `for c in cut[::-1]: res.insert(<index of the removed fragment>, c)`; `_cut_igraph` / `_cut_networkx`: the proximal
@@ -133,7 +134,34 @@ def _reroot_facts(fn):
         raise ValueError('reroot_skeleton: parent assignment not found')
     keeps = any(isinstance(st, ast.Assign) and ast.unparse(st.targets[0]) == 'new_roots'
                 and ast.unparse(st.value) == 'utils.make_iterable(new_root, force_type=object)' for st in fn.body)
-    return dict(lhs=lhs, rhs=rhs, newp=newp, rereads=rereads, keeps_objects=keeps)
+    # the networkx branch: the walk new root -> old root.  `None` (no successor) must be told apart from the node id 0
+    def is_none_test(t, var, negated):
+        return (isinstance(t, ast.Compare) and isinstance(t.left, ast.Name) and t.left.id == var and len(t.ops) == 1
+                and isinstance(t.ops[0], ast.IsNot if negated else ast.Is) and isinstance(t.comparators[0], ast.Constant)
+                and t.comparators[0].value is None)
+    walks = [w for w in ast.walk(loop) if isinstance(w, ast.While) and any('remove_edge' in ast.unparse(b) for b in w.body)]
+    if len(walks) != 1:
+        raise ValueError('reroot_skeleton: the networkx walk (while loop removing edges) was not found')
+    walk = walks[0]
+    # the variable that is appended to the path and advanced with `next(g.successors(.), None)`
+    adv = [b for b in walk.body if isinstance(b, ast.Assign) and isinstance(b.value, ast.Call) and ast.unparse(b.value.func) == 'next']
+    if len(adv) != 1:
+        raise ValueError('reroot_skeleton: the walk does not advance with next(...)')
+    var = ast.unparse(adv[0].targets[0])
+    default_none = (len(adv[0].value.args) == 2 and isinstance(adv[0].value.args[1], ast.Constant) and adv[0].value.args[1].value is None
+                    and ast.unparse(adv[0].value.args[0]) == f'g.successors({var})')
+    loop_is_not_none = is_none_test(walk.test, var, True)
+    skip_is_none = default_first = False
+    for st in ast.walk(loop):
+        if isinstance(st, ast.If) and len(st.body) == 1 and isinstance(st.body[0], ast.Continue) and is_none_test(st.test, var, False):
+            skip_is_none = True
+        if isinstance(st, ast.Assign) and ast.unparse(st.targets[0]) == var and ast.unparse(st.value) == 'next(g.successors(new_root), None)':
+            default_first = True
+    inverted = any(isinstance(st, ast.Assign) and isinstance(st.value, ast.ListComp)
+                   and ast.unparse(st.value.elt) == "(path[i + 1], path[i], {'weight': weights[i]})"
+                   and ast.unparse(st.value.generators[0].iter) == 'range(len(path) - 1)' for st in ast.walk(loop))
+    return dict(lhs=lhs, rhs=rhs, newp=newp, rereads=rereads, keeps_objects=keeps, nx_loop_is_not_none=loop_is_not_none,
+                nx_skip_is_none=skip_is_none, nx_default_none=default_none and default_first, nx_inverted=inverted)
 
 
 # ------------------------------------------------------------------------------------------------ cut
@@ -295,6 +323,11 @@ def generate(repo: Path):
     A('')
     A('/-! ### `reroot_skeleton`: what the loop writes into the node table -/')
     A(f"def rerootSpec : RerootSpec := {{ lhs := {sl(rr['lhs'])}, rhs := {sl(rr['rhs'])}, newRootParent := {_int(rr['newp'])}, rereadsRoots := {_b(rr['rereads'])} }}")
+    A('/-- networkx branch, the walk new root -> old root: `if parent is None: continue` and `while parent is not None:` (identity tests: the node id 0')
+    A('    is falsy and must not end the walk), successors default to `None`, the inverted edges carry the weights read along the way -/')
+    A(f"def nxWalkSpec : NxWalkSpec := {{ skipIsNone := {_b(rr['nx_skip_is_none'])}, loopIsNotNone := {_b(rr['nx_loop_is_not_none'])} }}")
+    A(f"def nxSuccessorDefaultsToNone : Bool := {_b(rr['nx_default_none'])}")
+    A(f"def nxInvertedEdgesKeepTheirWeights : Bool := {_b(rr['nx_inverted'])}")
     A('/-- `TreeNeuron.reroot` forwards its working copy and the target with `inplace=True`; `root.setter` calls `self.reroot(value, inplace=True)` -/')
     A(f'def rerootMethodForwards : Bool := {_b(method_fwd)}')
     A(f'def rootSetterReroots : Bool := {_b(setter_ok)}')
